@@ -18,7 +18,7 @@ require (
 require (
 	github.com/mitchellh/go-homedir v1.1.0 // indirect
 	github.com/mithrandie/go-file/v2 v2.1.0 // indirect
-	github.com/mithrandie/go-text v1.6.0 // indirect
+	github.com/mithrandie/go-text v1.6.0
 	golang.org/x/crypto v0.7.0 // indirect
 	golang.org/x/sys v0.29.0 // indirect
 	golang.org/x/term v0.6.0 // indirect
